@@ -164,6 +164,7 @@ type vc18U struct {
 	r      *vRand
 	st     map[string]int
 	uniq   uint64
+	dead   bool // the real code refused one of its own blocks: stop this universe
 }
 
 const (
@@ -865,7 +866,7 @@ func vc18Run(t *testing.T, o vc18Opts) {
 	for un := 0; un < o.universes; un++ {
 		u := vc18NewUniverse(t, r, st)
 		var prevBlock [][]transactions.SignedTxn
-		for b := 0; b < o.blocks; b++ {
+		for b := 0; b < o.blocks && !u.dead; b++ {
 			prevBlock = u.block(t, out, o, prevBlock)
 		}
 	}
@@ -896,12 +897,11 @@ func (u *vc18U) block(t *testing.T, out *vOut, o vc18Opts, prevBlock [][]transac
 	ru := l.totals.RewardUnits()
 	ev, err := StartEvaluator(l, hdr, EvaluatorOptions{Validate: true, Generate: true})
 	if err != nil {
-		// e.g. the pool cannot pay the rewards any more: report and stop this universe's block
-		out.Case(vSym("blk"), vc18Params(l.proto),
-			vL(uint64(rnd), prev.RewardsLevel, prev.RewardsLevel, ru, vc18Sink+1, vc18Pool+1, 0, prev.TxnCounter),
-			base, baseTx, vL(vSym("err"), 19), vL(), vL())
+		// e.g. the pool cannot pay the rewards any more: nothing to observe, stop this universe
 		st["start_err"]++
-		t.Fatalf("StartEvaluator: %v", err)
+		u.dead = true
+		t.Logf("StartEvaluator: %v", err)
+		return nil
 	}
 	st["blocks"]++
 	if ev.state.rewardsLevel() > prev.RewardsLevel {
@@ -940,10 +940,20 @@ func (u *vc18U) block(t *testing.T, out *vOut, o vc18Opts, prevBlock [][]transac
 			}
 		}
 	}
-	// finish: generate, choose a proposer, validate (performs the payout), commit
+	// finish: generate, choose a proposer, validate (performs the payout), commit.  When the
+	// real code refuses its own block (e.g. CalculateTotals: "sum of money changed") the case is
+	// still written -- the per-group observations tell what went wrong -- and the universe ends.
+	giveUp := func(why string, err error) [][]transactions.SignedTxn {
+		st["block_refused_"+why]++
+		end := vL(vL(), vL(), 0, 0, 19, u.ledgerTable())
+		out.Case(vSym("blk"), vc18Params(l.proto), hd, base, baseTx, startObs, groups, end)
+		u.dead = true
+		t.Logf("block %d refused (%s): %v", rnd, why, err)
+		return nil
+	}
 	ub, err := ev.GenerateBlock(nil)
 	if err != nil {
-		t.Fatalf("GenerateBlock: %v", err)
+		return giveUp("generate", err)
 	}
 	var seed committee.Seed
 	copy(seed[:], r.Bytes(32))
@@ -958,7 +968,7 @@ func (u *vc18U) block(t *testing.T, out *vOut, o vc18Opts, prevBlock [][]transac
 		blk = ub.UnfinishedBlock().WithProposer(seed, u.addrs[prop], false)
 		delta, err = Eval(context.Background(), l, blk, true, verify.GetMockedCache(true), nil, nil)
 		if err != nil {
-			t.Fatalf("Eval(validate) failed: %v", err)
+			return giveUp("validate", err)
 		}
 	}
 	if blk.ProposerPayout().Raw > 0 {
